@@ -4,6 +4,7 @@ package xmpp
 
 import (
 	"context"
+	"errors"
 	"fmt"
 	"strings"
 	"testing"
@@ -543,6 +544,96 @@ func c07pendingAcrossReconnect(viaResume bool) func() {
 	}
 }
 
+// c07sendFails: the request cannot be written (the connection is broken for writing). SendIQ reports the error,
+// nothing stays registered for the request, and nothing it touched stays locked: a later request on a new
+// connection is answered, and inbound IQs are still routed.
+func c07sendFails(comp bool) func() {
+	return func() {
+		vrt.Quiet(true)
+		var end *c07end
+		var s *sess
+		served := func(sc *srvConn) {
+			for {
+				u := sc.read()
+				if u.kind == "eof" || u.kind == "close" || vrt.Killed() {
+					return
+				}
+				if u.kind == "element" && u.name == "iq" && attr(u.raw, "type") == "get" {
+					sc.send(fmt.Sprintf("<iq type='result' id='%s' from='example.org'/>", attr(u.raw, "id")))
+				}
+			}
+		}
+		if comp {
+			var err error
+			end, err = c07component(served)
+			if err != nil {
+				vrt.Fail("C07|harness|component", "%v", err)
+				return
+			}
+		} else {
+			s = newSess(sessOpts{keepalive: 3600, served: func(sc *srvConn, r *negRec) { served(sc) }})
+			if s.cl == nil {
+				return
+			}
+			end = &c07end{sender: s.cl, router: s.router, routed: &s.routed, sc: func() *srvConn { return s.conn(0) }, connect: s.cl.Connect}
+		}
+		if err := end.connect(); err != nil {
+			vrt.Fail("C07|harness|connect", "%v", err)
+			return
+		}
+		vrt.WaitIdle()
+		vrt.Quiet(false)
+		who := "client"
+		if comp {
+			who = "component"
+		}
+		end.sc().raw.Peer().WriteFault = func(c *vnet.Conn, p []byte) (int, error) { return 0, errors.New("write: broken pipe") }
+		ctx, cancel := vrt.WithTimeout(vrt.Background(), 60*time.Second)
+		iq, _ := stanza.NewIQ(stanza.Attrs{Type: stanza.IQTypeGet, Id: "lost1", To: "example.org"})
+		iq.Payload = &stanza.DiscoInfo{}
+		_, err := end.sender.SendIQ(ctx, iq)
+		if err == nil {
+			vrt.Fail("C07|send-failure-not-reported|"+who, "SendIQ returned nil although the request could not be written")
+		}
+		vrt.WaitIdle()
+		end.router.IQResultRouteLock.RLock()
+		_, still := end.router.IQResultRoutes["lost1"]
+		end.router.IQResultRouteLock.RUnlock()
+		if still {
+			vrt.Fail("C07|pending-entry-left|after-failed-send|"+who, "the request could not be written and SendIQ said so, yet it is still registered as pending")
+		}
+		cancel()
+		vrt.WaitIdle()
+		// the connection works again: a further request is answered
+		end.sc().raw.Peer().WriteFault = nil
+		got := ""
+		vrt.Go("later-caller", func() {
+			ctx, cancel := vrt.WithTimeout(vrt.Background(), 60*time.Second)
+			defer cancel()
+			q, _ := stanza.NewIQ(stanza.Attrs{Type: stanza.IQTypeGet, Id: "later1", To: "example.org"})
+			q.Payload = &stanza.DiscoInfo{}
+			ch, err := end.sender.SendIQ(ctx, q)
+			if err != nil {
+				got = "error: " + err.Error()
+				return
+			}
+			c0 := vrt.RecvCase((<-chan stanza.IQ)(ch))
+			c1 := vrt.RecvCase(ctx.Done())
+			if vrt.Select(false, c0, c1) == 0 && c0.Ok {
+				got = c0.Val.Id
+			} else {
+				got = "nothing"
+			}
+		})
+		vrt.WaitIdle()
+		vrt.Sleep(100 * time.Second)
+		vrt.WaitIdle()
+		if got != "later1" {
+			vrt.Fail("C07|later-request-blocked|"+who+"|after-failed-send", "a request made after one that could not be written got %q (alive threads: %v)", got, vrt.Alive())
+		}
+	}
+}
+
 // c07manyHandlers: n stanzas arrive at once and the handler of each asks the server something (SendIQ) and waits
 // for the answer; the server answers once it has read all n requests. However many handlers wait at the same time,
 // packet processing goes on: every one of them gets its answer.
@@ -650,6 +741,9 @@ func TestVerifC07(t *testing.T) {
 	}
 	for _, viaResume := range []bool{false, true} {
 		scs = append(scs, hx.Scenario{Name: fmt.Sprintf("client/pending-across-reconnect/resume=%v", viaResume), Opt: vrt.Options{Bound: 1, Horizon: 50000}, Body: c07pendingAcrossReconnect(viaResume), Verdict: c07verdict})
+	}
+	for _, comp := range []bool{false, true} {
+		scs = append(scs, hx.Scenario{Name: fmt.Sprintf("send-fails/comp=%v", comp), Opt: vrt.Options{Bound: 1, Horizon: 50000}, Body: c07sendFails(comp), Verdict: c07verdict})
 	}
 	for _, n := range []int{3, 40} {
 		scs = append(scs, hx.Scenario{Name: fmt.Sprintf("client/many-handlers-waiting/n=%d", n), Opt: vrt.Options{Bound: 0, Horizon: 400000}, Body: c07manyHandlers(n), Verdict: c07verdict})
